@@ -32,4 +32,25 @@ theorem tokenize_total (c : Conf) (hv : c.Valid) (s : Str) :
 /-- non-vacuity: the default configuration is valid -/
 example : (⟨true, ['[', ']'], false, ['"']⟩ : Conf).Valid := by decide
 
+/-- **Quoting protects any argument.**  For every valid configuration whose quote set contains the
+double quote (every bracket style, pipe on or off, nesting on or off) and every list of argument
+strings over full Unicode (including NUL, CR, LF, brackets, pipes, quotes, backslashes, blanks),
+the arguments written in double quotes with `\` and `"` backslash-escaped and joined by blanks
+tokenise back to exactly that list: nothing inside the quotes is interpreted. -/
+theorem quote_roundtrip (c : Conf) (hv : c.Valid) (hq : '"' ∈ c.quotes) (xs : List Str) :
+    tokenize c (joinChar ' ' (xs.map quote)) = .tree (xs.map fun x => .leaf (toCps x)) := by
+  unfold tokenize
+  obtain ⟨T, hT, -⟩ := mkTokenizer_ok (effBrackets_ok hv tables_ok) (effPipe c) c.quotes
+  have hd := dqTok_of_mk tables_ok (effBrackets_ok hv tables_ok) hT hq
+  rw [hT]
+  have := tokenizeT_dq hd quoteBody xs (fun x _ => goodWriter_quoteBody x)
+  simp only [show dq quoteBody = quote from rfl] at this
+  simp only [this]
+
+/-- non-vacuity and a concrete instance: brackets, a pipe, a quote, a backslash and non-ASCII text -/
+example : tokenize ⟨true, ['[', ']'], true, ['"']⟩
+      (joinChar ' ' ([['[', 'a', ']', ' ', '|'], ['"', '\\', 'é', '好']].map quote))
+    = .tree [.leaf (toCps ['[', 'a', ']', ' ', '|']), .leaf (toCps ['"', '\\', 'é', '好'])] :=
+  quote_roundtrip _ (by decide) (by decide) _
+
 end C13
